@@ -85,23 +85,44 @@ pub fn stub_mci(prs: &mut raft::ProgressTracker) -> (u64, bool) {
     (best, false)
 }
 
+/// Emits the `#[kani::proof]` wrapper.  `[]` = with the `stub_mci` contract stub (Raft-level
+/// harnesses), `[nostub]` = the real `maximal_committed_index` (C11 checks it against the oracle).
+#[macro_export]
+macro_rules! emit_proof {
+    ([] $name:ident, $u:literal, $f:expr) => {
+        #[cfg(kani)]
+        #[kani::proof]
+        #[kani::unwind($u)]
+        #[kani::stub(std::fmt::format, $crate::macros::stub_format)]
+        #[kani::stub(std::fmt::write, $crate::macros::stub_write)]
+        #[kani::stub(raft::ProgressTracker::maximal_committed_index, $crate::macros::stub_mci)]
+        pub fn $name() {
+            let mut s = $crate::inp::Src::symbolic();
+            let f: fn(&mut $crate::inp::Src) = $f;
+            f(&mut s);
+        }
+    };
+    ([nostub] $name:ident, $u:literal, $f:expr) => {
+        #[cfg(kani)]
+        #[kani::proof]
+        #[kani::unwind($u)]
+        #[kani::stub(std::fmt::format, $crate::macros::stub_format)]
+        #[kani::stub(std::fmt::write, $crate::macros::stub_write)]
+        pub fn $name() {
+            let mut s = $crate::inp::Src::symbolic();
+            let f: fn(&mut $crate::inp::Src) = $f;
+            f(&mut s);
+        }
+    };
+}
+
 /// Declares harnesses: generates one `#[kani::proof]` per entry and the native
-/// registry used by `replay`.
+/// registry used by `replay`.  `{ @nostub name, ... }` omits the contract stub.
 #[macro_export]
 macro_rules! harnesses {
-    ($( { $name:ident, $prop:literal, $tier:ident, unwind = $u:literal, $desc:literal, $f:expr } )*) => {
+    ($( { $(@$mode:ident)? $name:ident, $prop:literal, $tier:ident, unwind = $u:literal, $desc:literal, $f:expr } )*) => {
         $(
-            #[cfg(kani)]
-            #[kani::proof]
-            #[kani::unwind($u)]
-            #[kani::stub(std::fmt::format, $crate::macros::stub_format)]
-            #[kani::stub(std::fmt::write, $crate::macros::stub_write)]
-            #[kani::stub(raft::ProgressTracker::maximal_committed_index, $crate::macros::stub_mci)]
-            pub fn $name() {
-                let mut s = $crate::inp::Src::symbolic();
-                let f: fn(&mut $crate::inp::Src) = $f;
-                f(&mut s);
-            }
+            $crate::emit_proof!([$($mode)?] $name, $u, $f);
         )*
 
         pub struct HarnessInfo {
